@@ -8,9 +8,10 @@ undecided (the guard talks about a node set whose provenance the model cannot es
 from __future__ import annotations
 
 import ast
+import re
 
 from core.guards import Formula, atom, atoms_of, f_and, f_not, f_or, implies
-from core.loader import Repo, norm
+from core.loader import AnalysisError, Repo, norm
 from core.report import Result
 
 from . import search as S
@@ -288,6 +289,19 @@ def _same_object(m: S.SearchModel, setvar: str, ev: S.Event, kvar: str) -> bool:
     return all(cfg.dominates(kst, c) for c in chain if c is not None) and cfg.dominates(d, stmt_of(ev.call))
 
 
+def _implies_for_some(premise: Formula, conclusion: Formula, free: list[str]) -> bool:
+    """premise -> (exists free atoms. conclusion), by enumeration."""
+    from core.guards import assignments, evaluate
+
+    bound = sorted((atoms_of(premise) | atoms_of(conclusion)) - set(free))
+    for env in assignments(bound):
+        if not evaluate(premise, env):  # no free atom occurs in the premise
+            continue
+        if not any(evaluate(conclusion, {**env, **e2}) for e2 in assignments(free)):
+            return False
+    return True
+
+
 def _set_mutations(m: S.SearchModel, name: str) -> list[tuple[ast.AST, str, list[ast.AST]]]:
     """[(node, grow | shrink | other, element expressions)] for every statement of the view that changes the node set `name`."""
     out: list[tuple[ast.AST, str, list[ast.AST]]] = []
@@ -350,27 +364,43 @@ def _exempt_sets_exact(repo: Repo, res: Result, m: S.SearchModel, subj: str, own
                     f"{effect} (only imports that stay inside the subject and imports of the named objects are exempt; an ancestor or a sibling of the subject is something else)",
                     where(fi, node), kind="dominance",
                 )
+            elif kind == "grow" and name in own and m.direction == "succ" and prov and prov <= {f"filter:{subj}", "const"} and f"filter:{subj}" in prov:
+                n -= 1  # the subject's own node, as it is: a member of its sub-tree anyway (the forward search never takes it out)
             elif kind in ("grow", "shrink") and prov == {"subtree"} and name in own and all(site.param == subj for site in m.subtree_sites if any(site.call is x for e in elts for x in ast.walk(e))):
                 n -= 1  # the subject's own sub-tree once more
             else:
                 res.undecide("C01.S", key, f"`{norm(node)}` {verb} `{name}`, the set holding {what_for}, and the model cannot tell which nodes ({', '.join(sorted(prov)) or 'no source found'})", where(fi, node))
     # converse of [something else]: nothing but the two sets keeps an import edge from being recorded
-    for it in m.neighbour_iters:
-        evs = [e for e in rec if e.nvar == it.var and (S._inside_body(e.elt if e.elt is not None else e.call, it.node) if it.gen is None else S._inside_gen(e.elt if e.elt is not None else e.call, it.node, it.gen)) or (e.nvar == it.var and len(m.neighbour_iters) == 1)]
+    for var in dict.fromkeys(i.var for i in m.neighbour_iters):
+        its = [i for i in m.neighbour_iters if i.var == var]
+        evs = [e for e in rec if e.nvar == var]
         if not evs:
             continue
-        head = it.node if it.gen is None else it.node.generators[it.gen].iter
-        reach = m.guard_of(head, it.extra) if it.gen is None else S.conds_formula(S.all_conds(fi, head) + list(it.extra), m.subst)
+        it = its[0]
+        reaches = []
+        for i_ in its:
+            head = i_.node if i_.gen is None else i_.node.generators[i_.gen].iter
+            reaches.append(m.guard_of(head, i_.extra) if i_.gen is None else S.conds_formula(S.all_conds(fi, head) + list(i_.extra), m.subst))
+        reach = f_or(reaches)
         H = m.hier(it.var)
         outside = f_and([reach, f_not(H)] + [f_not(atom(f"{it.var} in {x}")) for x in own + exc])
         recorded = f_or([e.guard for e in evs])
         n += 1
         key = repo.key(fi, stmt_of(evs[0].call)) + " [nothing else exempt]"
-        if implies(outside, recorded):
+        known = atoms_of(outside)
+        # the question is which *neighbours* are exempt: conditions that do not mention the neighbour (an early return when nothing was
+        # collected, a flag of the subject) are left open
+        mentions = re.compile(rf"(?<![\w.]){re.escape(it.var)}(?![\w])")
+        free = sorted(a for a in atoms_of(recorded) if a not in known and not mentions.search(a))
+        try:
+            holds = _implies_for_some(outside, recorded, free)
+        except AnalysisError as err:
+            res.undecide("C01.S", key, f"the condition under which a pair is recorded is too large to enumerate ({err})", where(fi, evs[0].call))
+            continue
+        if holds:
             res.add("C01.S", key, True, "every import edge that leaves the subject and does not end in a named object is recorded", where(fi, evs[0].call), kind="dominance")
             continue
-        known = atoms_of(outside)
-        extra = sorted(a for a in atoms_of(recorded) if a not in known)
+        extra = sorted(a for a in atoms_of(recorded) if a not in known and a not in free)
         sets = [a[len(it.var) + 4:] for a in extra if a.startswith(f"{it.var} in ")]
         culprit = next((x for x in sets if x.isidentifier() and x not in m.visited_sets and S.names_only(S.provenance(m, ast.Name(id=x, ctx=ast.Load())))), None)
         if culprit is not None:
